@@ -25,6 +25,7 @@ func init() {
 			Check(s, r)
 		},
 		Rule: "inputs: for each program of a generated corpus every single-token corruption (delete each token, insert each of ~110 vocabulary tokens at each position, duplicate, transpose neighbours, truncate at each position), " +
+			"characters glued to the start and end of every token (look-alikes of letters, digits, quotes and separators, line breaks, NUL) and inserted at every byte inside strings and quoted names; " +
 			"seeded two- and three-fold token/byte corruptions and token soups. oracle: whenever Parse succeeds, the token sequence regenerated purely from the exported fields of the returned tree must equal Scan(source) as (kind,value), " +
 			"after removing from the source side only commas directly before the ')' of a call or before summarize's by, and empty statements. non-trivial = distinct accepted source with a bracket pair or two operators; rejected corruptions are counted separately",
 		FloorQuick: 50_000, FloorThorough: 1_000_000,
